@@ -21,7 +21,10 @@ import (
 	"encoding/json"
 	"fmt"
 	"math/rand"
+	"os"
+	"path/filepath"
 	"strings"
+	"sync/atomic"
 	"time"
 	"unicode"
 	"unicode/utf8"
@@ -59,19 +62,32 @@ type wresult struct {
 	SecTitles []string `json:"sec_titles,omitempty"`
 }
 
+// wbatch is one request: the worker notes the id of the case it is about to
+// run in the journal file, so that a batch that dies or spins names its culprit.
+type wbatch struct {
+	Journal string   `json:"journal"`
+	Cases   []*wcase `json:"cases"`
+}
+
 func init() { fw.RegisterWorker("c13", handle) }
 
 func handle(req []byte) []byte {
-	var cases []wcase
-	if err := json.Unmarshal(req, &cases); err != nil {
+	var b wbatch
+	if err := json.Unmarshal(req, &b); err != nil {
 		panic("bad request: " + err.Error())
 	}
-	out := make([]wresult, len(cases))
-	for i := range cases {
-		out[i] = runOne(&cases[i])
+	out := make([]wresult, len(b.Cases))
+	for i := range b.Cases {
+		if b.Journal != "" {
+			os.WriteFile(b.Journal, []byte(b.Cases[i].ID), 0o644)
+		}
+		out[i] = runOne(b.Cases[i])
 	}
-	b, _ := json.Marshal(out)
-	return b
+	if b.Journal != "" {
+		os.Remove(b.Journal)
+	}
+	rb, _ := json.Marshal(out)
+	return rb
 }
 
 func bytesOf(ss []string) [][]byte {
@@ -491,7 +507,7 @@ func clipAll(bs [][]byte, n int) []string {
 
 // ---------------------------------------------------------------- driver
 
-const batchSize = 40
+const batchSize = 20
 
 func isNontrivial(w *wcase) bool {
 	switch w.Kind {
@@ -549,7 +565,7 @@ func Run(c *fw.Ctx) {
 		"size law only on the statement's bounded domain: Max.Type hard, unit characters or tokens, value >= 200, TokensPerChar <= 1, a U+0020 at least every 50 bytes; measured leniently (runes, int(runes*TokensPerChar), ratio <= 0 read as the documented default 0.25)",
 		"overlap bounds = at most MaxOverlap characters (MinOverlap is documented as a preference and not asserted)",
 		"the layout Chunker's MaxChunkSize is not a SizeConfig hard maximum: its paths are checked for termination, conservation, UTF-8 and overlap only",
-		"termination = a batch of <= 40 cases finishes within 30 s of CPU time (healthy cases cost milliseconds); a failing batch is re-run case by case")
+		"termination = a batch of <= 20 cases finishes within 20 s of CPU time (healthy cases cost milliseconds); a failing batch is re-run case by case")
 
 	nSplit := c.N(6000, 400000)
 	nOverlap := c.N(2500, 120000)
@@ -596,43 +612,11 @@ func Run(c *fw.Ctx) {
 	}
 
 	workers := 16
-	pool := fw.NewPool(c, "c13", workers, 30*time.Second, 2048)
+	pool := fw.NewPool(c, "c13", workers, cpuBudget, 2048)
 	defer pool.Close()
+	d := &driver{c: c, pool: pool}
 
 	nb := (len(jobs) + batchSize - 1) / batchSize
-	runBatch := func(cases []*wcase) {
-		if len(cases) == 0 {
-			return
-		}
-		req, _ := json.Marshal(cases)
-		res := pool.Do(req)
-		var outs []wresult
-		if res.Kind == "ok" && json.Unmarshal(res.Resp, &outs) == nil && len(outs) == len(cases) {
-			for k := range cases {
-				finish(c, cases[k], &outs[k])
-			}
-			return
-		}
-		if len(cases) == 1 {
-			w := cases[0]
-			account(c, w)
-			switch res.Kind {
-			case "hang":
-				c.Fail("", "termination/"+w.Kind, w.ID, fmt.Sprintf("%s did not terminate: %s; spinning in %s", w.Kind, res.Msg, res.Site), withStack(detailOf(w, nil), res.Stack))
-			case "stuck":
-				c.Inconclusive("worker stuck on " + w.ID + ": " + res.Msg)
-			default:
-				c.Fail("", res.Kind+"/"+w.Kind, w.ID, fmt.Sprintf("%s killed the process (%s): %s at %s", w.Kind, res.Kind, res.Msg, res.Site), withStack(detailOf(w, nil), res.Stack))
-			}
-			return
-		}
-		// attribute: re-run case by case
-		c.Count("batches_rerun", 1)
-		for _, w := range cases {
-			runBatchSingle(c, pool, w)
-		}
-	}
-	_ = runBatch
 	c.Parallel(nb, func(b int) {
 		var cases []*wcase
 		for k := b * batchSize; k < (b+1)*batchSize && k < len(jobs); k++ {
@@ -642,11 +626,29 @@ func Run(c *fw.Ctx) {
 			}
 			cases = append(cases, mk(jobs[k]))
 		}
-		runBatch(cases)
+		d.runBatch(cases)
 	})
-	if c.Only == "" && c.Counter("size_law_cases") < 50 {
+	c.Extra("max_batch_cpu_ms", atomic.LoadInt64(&d.maxCPU))
+	c.Extra("cpu_budget_per_batch_s", cpuBudget.Seconds())
+	if n := atomic.LoadInt64(&d.skipped); n > 0 {
+		c.Extra("cases_skipped_after_hang_flood", n)
+	}
+	if c.Only == "" && c.ViolationCount() == 0 && c.Counter("size_law_cases") < 50 {
 		c.Inconclusive("fewer than 50 size-law cases on the bounded domain")
 	}
+}
+
+// cpuBudget: a batch of <= 20 cases costs well under a second of CPU on a
+// healthy tree (see max_batch_cpu_ms in the evidence); 20 s is the hang line.
+const cpuBudget = 20 * time.Second
+
+type driver struct {
+	c       *fw.Ctx
+	pool    *fw.Pool
+	seq     int64
+	maxCPU  int64
+	hangs   int64
+	skipped int64
 }
 
 func withStack(d map[string]any, st string) map[string]any {
@@ -654,22 +656,78 @@ func withStack(d map[string]any, st string) map[string]any {
 	return d
 }
 
-func runBatchSingle(c *fw.Ctx, pool *fw.Pool, w *wcase) {
-	req, _ := json.Marshal([]*wcase{w})
-	res := pool.Do(req)
-	var outs []wresult
-	if res.Kind == "ok" && json.Unmarshal(res.Resp, &outs) == nil && len(outs) == 1 {
-		finish(c, w, &outs[0])
-		return
-	}
-	account(c, w)
-	switch res.Kind {
-	case "hang":
-		c.Fail("", "termination/"+w.Kind, w.ID, fmt.Sprintf("%s did not terminate: %s; spinning in %s", w.Kind, res.Msg, res.Site), withStack(detailOf(w, nil), res.Stack))
-	case "stuck":
-		c.Inconclusive("worker stuck on " + w.ID + ": " + res.Msg)
-	default:
-		c.Fail("", res.Kind+"/"+w.Kind, w.ID, fmt.Sprintf("%s killed the process (%s): %s at %s", w.Kind, res.Kind, res.Msg, res.Site), withStack(detailOf(w, nil), res.Stack))
+// runBatch runs the cases in one worker request. If the worker dies or spins,
+// the journal names the case it was on: that case is reported (a hang is first
+// confirmed by running the case alone, which is also what a replay does) and
+// the cases after it are run as a new batch.
+func (d *driver) runBatch(cases []*wcase) {
+	c := d.c
+	for len(cases) > 0 {
+		if atomic.LoadInt64(&d.hangs) >= 12 {
+			// the tree is broken beyond doubt; do not burn a CPU budget per remaining hang
+			atomic.AddInt64(&d.skipped, int64(len(cases)))
+			return
+		}
+		journal := filepath.Join(c.Work, fmt.Sprintf("c13-journal-%d", atomic.AddInt64(&d.seq, 1)))
+		req, _ := json.Marshal(wbatch{Journal: journal, Cases: cases})
+		res := d.pool.Do(req)
+		for {
+			old := atomic.LoadInt64(&d.maxCPU)
+			if ms := res.CPU.Milliseconds(); ms <= old || atomic.CompareAndSwapInt64(&d.maxCPU, old, ms) {
+				break
+			}
+		}
+		var outs []wresult
+		if res.Kind == "ok" && json.Unmarshal(res.Resp, &outs) == nil && len(outs) == len(cases) {
+			for k := range cases {
+				finish(c, cases[k], &outs[k])
+			}
+			return
+		}
+		// which case was it on?
+		jb, _ := os.ReadFile(journal)
+		os.Remove(journal)
+		at := -1
+		for k, w := range cases {
+			if w.ID == string(jb) {
+				at = k
+			}
+		}
+		if at < 0 {
+			if res.Kind == "stuck" {
+				c.Inconclusive("worker stuck: " + res.Msg)
+				return
+			}
+			at = 0 // no journal entry: the worker died before the first case; blame nothing, retry one by one
+			if len(cases) > 1 {
+				for _, w := range cases {
+					d.runBatch([]*wcase{w})
+				}
+				return
+			}
+		}
+		c.Count("batches_interrupted", 1)
+		// cases before the culprit finished fine inside the dead worker but their
+		// results are lost: run them again (cheap), then deal with the culprit.
+		if at > 0 {
+			d.runBatch(cases[:at])
+		}
+		w := cases[at]
+		if len(cases) > 1 { // confirm alone
+			d.runBatch([]*wcase{w})
+		} else {
+			account(c, w)
+			switch res.Kind {
+			case "hang":
+				atomic.AddInt64(&d.hangs, 1)
+				c.Fail("", "termination/"+w.Kind, w.ID, fmt.Sprintf("%s did not terminate: %s; spinning in %s", w.Kind, res.Msg, res.Site), withStack(detailOf(w, nil), res.Stack))
+			case "stuck":
+				c.Inconclusive("worker stuck on " + w.ID + ": " + res.Msg)
+			default:
+				c.Fail("", res.Kind+"/"+w.Kind, w.ID, fmt.Sprintf("%s killed the process (%s): %s at %s", w.Kind, res.Kind, res.Msg, res.Site), withStack(detailOf(w, nil), res.Stack))
+			}
+		}
+		cases = cases[at+1:]
 	}
 }
 
